@@ -52,5 +52,32 @@ if os.environ.get("PYTHON_MYPY_VERIF") == "1" and os.environ.get("VERIF_SCHED_SE
             return r
         worker.process_stale_scc_interface = wi
         worker.process_stale_scc_implementation = wm
+        oplog = os.environ.get("VERIF_WORKER_OPLOG")
+        if oplog:
+            import mypy.metastore as ms0
+            for cls in (ms0.FilesystemMetadataStore, ms0.SqliteMetadataStore):
+                for nm in ("write", "remove", "commit", "commit_path"):
+                    if nm not in cls.__dict__:
+                        continue
+                    orig0 = getattr(cls, nm)
+
+                    def logged(self, *a, _orig=orig0, _nm=nm, **k):
+                        with open(oplog, "a") as f:
+                            f.write(f"{os.getpid()} {_nm}:{a[0] if a and isinstance(a[0], str) else ''}\n")
+                        return _orig(self, *a, **k)
+                    setattr(cls, nm, logged)
+        # optional fault injection inside workers (C04/C07): store writes whose record name contains the
+        # given substring fail (return False without writing)
+        pat = os.environ.get("VERIF_WORKER_FAIL_WRITE")
+        if pat:
+            import mypy.metastore as ms
+            for cls in (ms.FilesystemMetadataStore, ms.SqliteMetadataStore):
+                orig = cls.write
+
+                def failing(self, name, data, mtime=None, _orig=orig):
+                    if pat in name:
+                        return False
+                    return _orig(self, name, data, mtime)
+                cls.write = failing
 
     sys.meta_path.insert(0, _Finder())
